@@ -250,7 +250,7 @@ func c02cRun(c *vk.Ctx, i int) {
 }
 
 func c02Concurrent(c *vk.Ctx) {
-	n := c.Pick(12, 240)
+	n := c.Pick(12, 160)
 	for i := 0; i < n; i++ {
 		c02cRun(c, i)
 	}
